@@ -630,7 +630,7 @@ func c04Exec(c *core.Ctx, cs c04Case) {
 }
 
 func c04Gen(c *core.Ctx) {
-	n := c.Pick(15000, 500000)
+	n := c.Pick(15000, 1000000)
 	for i := 0; i < n; i++ {
 		r := c.Rand("prog", int64(i))
 		p := genProgram(r, i)
